@@ -30,8 +30,10 @@ def sv_templates(thorough):
     for kind in ("fact", "goal"):
         for pred in ("P", "Z"):
             for tau in ("s0", "v"):
-                for timing in ("free", "at0", "at5", "0to5", "zero@5", "chain", "5to10"):
+                for timing in ("free", "at0", "at5", "0to5", "zero@5", "chain", "5to10", "pin0to5", "pin3to8"):
                     if not thorough and kind == "goal" and timing in ("5to10", "zero@5") and pred == "Z":
+                        continue
+                    if not thorough and timing == "pin3to8" and (tau == "v" or pred == "Z"):
                         continue
                     if not thorough and tau == "v" and timing in ("free", "at5"):
                         continue
@@ -54,6 +56,10 @@ def sv_atom_text(i, t, prev):
         args += ["start: 5.0", "end: 10.0"]
     elif timing == "zero@5":
         args += ["start: 5.0", "end: 5.0"]
+    elif timing == "pin0to5":  # every temporal parameter is a constant: nothing moves when the atom is activated
+        args += ["start: 0.0", "end: 5.0", "duration: 5.0"]
+    elif timing == "pin3to8":
+        args += ["start: 3.0", "end: 8.0", "duration: 5.0"]
     elif timing == "chain" and prev is not None:
         post.append("%s.start == %s.end;" % (name, prev))
     s = "%s %s = new %s.%s(%s);" % (kind, name, tau if tau != "v" else "v%d" % i, pred, ", ".join(args))
@@ -100,6 +106,14 @@ def gen_sv(thorough):
                 prev = "a%d" % i
             k += 1
             progs.append(("sv%d" % k, text.strip(), {"fam": "sv", "templates": ts, "ninst": 2, "horizon": 12}))
+    # choice points: a0, then `{ a1 } or { a2 }`: the atom of the chosen disjunct becomes active by a search decision,
+    # after the instance has already been swept once
+    TD = [(kind, "P", "s0", timing) for kind in ("fact", "goal") for timing in ("free", "at0", "0to5", "pin0to5", "pin3to8")]
+    for combo in itertools.product(range(len(TD)), repeat=3):
+        ts = [TD[i] for i in combo]
+        text = head1 + sv_atom_text(0, ts[0], None) + " { " + sv_atom_text(1, ts[1], "a0") + " } or { " + sv_atom_text(2, ts[2], "a0") + " }"
+        k += 1
+        progs.append(("sv%d" % k, text, {"fam": "sv", "templates": ts, "ninst": 1, "horizon": None, "alts": [[0, 1], [0, 2]]}))
     return progs
 
 
@@ -137,6 +151,28 @@ def gen_rr(thorough):
                         text += "fact u%d = new %s.Use(%s); " % (i, res if res != "w" else "w%d" % i, ", ".join(args))
                     k += 1
                     progs.append(("rr%d" % k, text.strip(), {"fam": "rr", "uses": us, "cap": cap, "horizon": hor, "two": uses_w}))
+    # fully pinned uses (start, end and duration constant) and choice points: u0, then `{ u1 } or { u2 }`
+    UD = [(amount, 2, start, "r0") for amount in (1, 2, 3) for start in ("free", "p0", "p1")]
+
+    def use_text(i, u):
+        amount, dur, start, res = u
+        args = ["amount: %d.0" % amount, "duration: %d.0" % dur]
+        if start.startswith("p"):
+            args += ["start: %s.0" % start[1:], "end: %d.0" % (int(start[1:]) + dur)]
+        elif start != "free":
+            args.append("start: %s.0" % start)
+        return "fact u%d = new %s.Use(%s);" % (i, res, ", ".join(args))
+    for cap in (2, 3):
+        for combo in itertools.product(range(len(UD)), repeat=2):
+            us = [UD[i] for i in combo]
+            text = "ReusableResource r0 = new ReusableResource(%d.0); " % cap + " ".join(use_text(i, u) for i, u in enumerate(us))
+            k += 1
+            progs.append(("rr%d" % k, text, {"fam": "rr", "uses": us, "cap": cap, "horizon": None, "two": False}))
+        for combo in itertools.product(range(len(UD)), repeat=3):
+            us = [UD[i] for i in combo]
+            text = "ReusableResource r0 = new ReusableResource(%d.0); " % cap + use_text(0, us[0]) + " { " + use_text(1, us[1]) + " } or { " + use_text(2, us[2]) + " }"
+            k += 1
+            progs.append(("rr%d" % k, text, {"fam": "rr", "uses": us, "cap": cap, "horizon": None, "two": False, "alts": [[0, 1], [0, 2]]}))
     return progs
 
 
@@ -406,6 +442,10 @@ def sv_has_sequential_plan(m):
             fix(s, 5); fix(e, 10)
         elif timing == "zero@5":
             fix(s, 5); fix(e, 5)
+        elif timing == "pin0to5":
+            fix(s, 0); fix(e, 5)
+        elif timing == "pin3to8":
+            fix(s, 3); fix(e, 8)
         elif timing == "chain" and i > 0:
             row([(s, 1), (2 * (i - 1) + 1, -1)], 0)
             row([(s, -1), (2 * (i - 1) + 1, 1)], 0)
@@ -449,7 +489,7 @@ def rr_has_sequential_plan(m):
         c[H] = -1
         base.append((tuple(c), -dur, False))  # start + dur <= horizon
         if start != "free":
-            v = int(start)
+            v = int(start.lstrip("p"))
             c = [0] * nv
             c[i] = 1
             base.append((tuple(c), v, False))
@@ -490,7 +530,12 @@ def judge(prog, res):
     if v == "reader-error":
         return ("C16:valid-program-rejected:" + tag, "the reader rejected the program: " + res.get("what", ""))
     if v in ("unsolvable", "inconsistent"):
-        planted = (fam == "sv" and sv_has_sequential_plan(m)) or (fam == "rr" and rr_has_sequential_plan(m))
+        def sub(alt):
+            mm = dict(m)
+            mm["templates" if fam == "sv" else "uses"] = [m["templates" if fam == "sv" else "uses"][i] for i in alt]
+            return mm
+        subs = [sub(a) for a in m["alts"]] if m.get("alts") else [m]
+        planted = any((fam == "sv" and sv_has_sequential_plan(x)) or (fam == "rr" and rr_has_sequential_plan(x)) for x in subs)
         if fam == "basic":
             # every bound of gen_basic leaves a solution except a start beyond a bounded horizon (none generated)
             planted = True
